@@ -108,9 +108,16 @@ func original(seed uint64, e *entry, vi int) *cached {
 		c.js, c.jsOut, c.jsOK = encodeJSON(c.a)
 	}
 	c.wbin, c.wbinOK = c.bin, c.binOK
-	if c.a.wt != nil && c.a.bm != nil {
+	if c.a.wt != nil {
+		// through a buffer.Writer the caller owns and flushes: nothing depends on the library's own flushing
 		var buf bytes.Buffer
-		o := guard(func() (err error) { _, err = c.a.wt.WriteTo(&buf); return })
+		bw := bufio.NewWriterSize(&buf, 4096)
+		o := guard(func() (err error) {
+			if _, err = c.a.wt.WriteTo(bw); err != nil {
+				return
+			}
+			return bw.Flush()
+		})
 		c.wbin, c.wbinOK = append([]byte(nil), buf.Bytes()...), o.err == nil && o.panicked == nil
 	}
 	cache[key] = c
